@@ -52,3 +52,42 @@ Theorem C09_cover_checker_correct : forall E ignore routes,
   forall e, In e E -> ~ In e ignore -> exists r, In r routes /\ In e (EulerProofs1.pairs r).
 Proof. exact covers_b_correct. Qed.
 Print Assumptions C09_cover_checker_correct.
+
+(* the kPathCover model for k is feasible EXACTLY when k simple source-to-sink paths cover every non-ignored edge (and realise
+   every subpath constraint): soundness (rows force coverage, layers are paths) and completeness (every cover is admitted) *)
+From FP Require Import PathEncProofs PathEncComplete PathCoverComplete PathEncExample.
+Theorem C09_k_cover_model_feasible_iff_cover_exists :
+  forall (B : path_inst) (ignore : list PathEnc.edge) (rank : node -> nat) (Rm : nat),
+  PathEncProofs.wf_graph (p_graph B) -> p_allow_empty B = false ->
+  (forall u v, In (u, v) (g_edges (p_graph B)) -> (rank u < rank v)%nat) -> (forall v, (rank v <= Rm)%nat) ->
+  (forall c e, In c (p_cons B) -> In e c -> In e (g_edges (p_graph B)) /\ (0 <= elen B e)%Q) ->
+  ((exists a, sat a (encode_kpc B ignore)) <-> (exists P, path_cover B ignore P /\ constraints_covered B P)).
+Proof. exact kpc_feasible_iff. Qed.
+Print Assumptions C09_k_cover_model_feasible_iff_cover_exists.
+
+(* THE PROPERTY for MinPathCover, composed: with a solver that decides each generated LP exactly the search returns the
+   least number of paths of any cover, provided it lies in the searched range [width lower bound, |E|] *)
+Theorem C09_minpathcover_returns_the_minimum :
+  forall (inst : nat -> path_inst) (ignore : list PathEnc.edge) (rank : node -> nat) (Rm : nat)
+         (feasible : nat -> bool) (lb ub kopt : nat) (sts : list raw),
+  (forall k, p_k (inst k) = k /\ PathEncProofs.wf_graph (p_graph (inst k)) /\ p_allow_empty (inst k) = false /\
+             (forall u v, In (u, v) (g_edges (p_graph (inst k))) -> (rank u < rank v)%nat) /\
+             (forall c e, In c (p_cons (inst k)) -> In e c -> In e (g_edges (p_graph (inst k))) /\ (0 <= elen (inst k) e)%Q)) ->
+  (forall v, (rank v <= Rm)%nat) ->
+  (forall k, feasible k = true <-> exists a, sat a (encode_kpc (inst k) ignore)) ->
+  (forall i, (i < ub - lb)%nat -> exists x, nth_error sts i = Some x /\
+             status_of x = if feasible (lb + i)%nat then Optimal else Infeasible) ->
+  (exists P, path_cover (inst kopt) ignore P /\ constraints_covered (inst kopt) P) ->
+  (forall k, (k < kopt)%nat -> ~ exists P, path_cover (inst k) ignore P /\ constraints_covered (inst k) P) ->
+  (lb <= kopt < ub)%nat ->
+  so_res (mpc_solve true lb ub sts) = Solved kopt.
+Proof. exact mpc_returns_minimum. Qed.
+Print Assumptions C09_minpathcover_returns_the_minimum.
+
+(* non-vacuity: the diamond of PathEncExample.v is covered by 2 paths (constraint included) and not by 1 *)
+Example C09_premises_satisfiable :
+  (path_cover (exB 2) [] exP /\ constraints_covered (exB 2) exP) /\
+  (~ exists P, path_cover (exB 1) [] P /\ constraints_covered (exB 1) P) /\
+  (exists a, sat a (encode_kpc (exB 2) [])) /\ (~ exists a, sat a (encode_kpc (exB 1) [])).
+Proof. exact (conj ex_cover_2 (conj ex_no_cover_1 (conj ex_kpc_feasible_2 ex_kpc_infeasible_1))). Qed.
+Print Assumptions C09_premises_satisfiable.
